@@ -5,7 +5,7 @@ Require Import V.C47.Model V.C47.Proofs.
 Open Scope Z_scope.
 
 (* Over EVERY history of explicit / automatic creations (any class, any preface, any random-letter
-   oracle), House creations, Clear, ClearRegistries, assignRegistries and assignFrameRegistry
+   oracle), Framer creations in a given house, Framer.clone (with its frames), House creations, Clear, ClearRegistries, assignRegistries and assignFrameRegistry
    switches: every registry dict ever allocated holds pairwise distinct names, and every entry
    registered so far (name -> instance) is still there, in place: nothing is ever overwritten. *)
 Theorem names_unique_all_histories : forall ops,
@@ -55,6 +55,23 @@ Theorem assign_registries_points_to_house : forall s h a b c, nth_error (houses 
 Proof. exact assign_points_to_house. Qed.
 Print Assumptions assign_registries_points_to_house.
 
+(* Framer.clone (also the run-time Rearer path, which calls it) of a framer whose store belongs to house h,
+   called while ANY namespace is current (e.g. another house's): the requested name is checked against
+   house h's OWN tasker registry b -- rejected (CloneError, all registries unchanged) iff it is already
+   there -- and otherwise the clone is created under exactly that name and registered in b.
+   Premises: Framer has no Names attribute of its own (never Clear()ed on Framer itself) and b is an
+   allocated registry. *)
+Theorem clone_house_switch_no_collision : forall s f n0 n orc fd h a b c,
+  nth_error (framers s) f = Some fd -> nth_error (fhouse s) f = Some (Some h) ->
+  nth_error (houses s) h = Some (a, b, c) -> nms (attrs s CFramer) = None -> (b < length (heap s))%nat ->
+  (dmemN (n0 :: n) (nth b (heap s) []) = true ->
+     snd (step s (Clone f (n0 :: n) orc)) = Some ErrClone /\ heap (fst (step s (Clone f (n0 :: n) orc))) = heap s) /\
+  (dmemN (n0 :: n) (nth b (heap s) []) = false ->
+     snd (step s (Clone f (n0 :: n) orc)) = Some (Ok (n0 :: n)) /\
+     exists extra, nth b (heap (fst (step s (Clone f (n0 :: n) orc)))) [] = (nth b (heap s) [] ++ [(n0 :: n, ninst s)]) ++ extra).
+Proof. exact clone_own_house. Qed.
+Print Assumptions clone_house_switch_no_collision.
+
 Theorem suffix_loop_never_exhausted : forall s x, snd (step s x) <> Some OutOfFuel.
 Proof. exact step_no_fuel. Qed.
 Print Assumptions suffix_loop_never_exhausted.
@@ -72,3 +89,12 @@ Example c47_nonvacuous_suffix :
                      Create CFramer NAuto [84;97;115;107;101;114] [0; 1]] in
   map fst (nth 2 (heap s) []) = [[84;97;115;107;101;114;51]; [84;97;115;107;101;114;51;97]; [84;97;115;107;101;114;51;97;98]].
 Proof. vm_compute. reflexivity. Qed.
+
+(* two houses each clone their own framer under the same name "w" while the OTHER house's namespace is
+   current: both succeed, each clone lands in its own house's tasker registry *)
+Example c47_clone_two_houses :
+  let s := run init [CreateHouse (NStr [97]) [] []; CreateHouse (NStr [98]) [] [];
+                     Assign 0; CreateFramerIn 0 (NStr [102]) [] []; Assign 1; CreateFramerIn 1 (NStr [102]) [] [];
+                     Clone 0 [119] []; Assign 0; Clone 1 [119] []] in
+  map fst (nth 6 (heap s) []) = [[102]; [119]] /\ map fst (nth 9 (heap s) []) = [[102]; [119]].
+Proof. vm_compute. split; reflexivity. Qed.
